@@ -9,6 +9,7 @@ import Wz.Proofs.C02_Interp
 import Wz.Proofs.C02_Amode
 import Wz.Proofs.C02_SafeBounds
 import Wz.Gen.FrontendReload
+import Wz.Gen.BulkPops
 
 namespace Wz.C02
 open Wz.Gen.Memory Wz.Gen.InterpAddr Wz.Model.MemAccess
@@ -438,5 +439,34 @@ theorem frontend_reload_shape :
     Wz.Gen.FrontendReload.reloadAfterCallCallers =
       ["lowerCall", "lowerCallIndirect", "lowerTailCallReturnCall", "lowerTailCallReturnCallIndirect"] ∧
     Wz.Gen.FrontendReload.reloadDirectCallers = ["lowerCurrentOpcode"] := by decide
+
+
+/-! ### the compiler's range checks of bulk instructions happen in 64 bits -/
+
+/-- On zero-extended operands the 64-bit comparison `len < offset + size` is the exact range check: the sum of
+two 32-bit values cannot wrap around in 64 bits (all operands, all lengths). -/
+theorem bulk_range_check_64_exact (d n : BitVec 32) (len : BitVec 64) :
+    (len < d.setWidth 64 + n.setWidth 64) ↔ len.toNat < d.toNat + n.toNat := by
+  have hd := d.isLt
+  have hn := n.isLt
+  rw [BitVec.lt_def, BitVec.toNat_add, BitVec.toNat_setWidth, BitVec.toNat_setWidth]
+  have h1 : d.toNat % 2 ^ 64 = d.toNat := Nat.mod_eq_of_lt (by omega)
+  have h2 : n.toNat % 2 ^ 64 = n.toNat := Nat.mod_eq_of_lt (by omega)
+  rw [h1, h2, Nat.mod_eq_of_lt (by omega)]
+
+/-- Adding first and extending afterwards is NOT a range check: `0xfffffff0 + 32` wraps to 16, which is inside
+a one-page memory (the shape of a seeded change to the lowering of `memory.init`). -/
+theorem bulk_range_check_32_wraps_witness :
+    ((0xfffffff0#32 + 32#32).setWidth 64 ≤ 65536#64) ∧
+    ¬ ((0xfffffff0#32).setWidth 64 + (32#32).setWidth 64 ≤ 65536#64) := by decide
+
+/-- **Regenerated obligation** (frontend/lower.go): in the lowering of memory.init/copy/fill and
+table.init/copy/fill every i32 operand that takes part in range arithmetic is zero-extended to 64 bits first
+(directly or through a variable); no raw 32-bit operand is added, shifted or compared.  (The third operand of the
+two fill instructions is the value to store.) -/
+theorem compiler_bulk_operands_extended :
+    Wz.Gen.BulkPops.table =
+      [("OpcodeMiscMemoryInit", 3, 3, 0), ("OpcodeMiscMemoryCopy", 3, 3, 0), ("OpcodeMiscMemoryFill", 3, 2, 0),
+       ("OpcodeMiscTableInit", 3, 3, 0), ("OpcodeMiscTableCopy", 3, 3, 0), ("OpcodeMiscTableFill", 3, 2, 0)] := by decide
 
 end Wz.C02
